@@ -58,22 +58,42 @@ Sentinel(r) ==
 BigExplains(cfg, c, r) ==
     LET full == c.a.nomatches = 1 \/ (c.a.internal = 1 /\ c.a.xfill # c.a.yfill)   \* no common symbol: no k-mer match
     IN  /\ full                                             \* the drivers only send such cases
+        /\ r.cells = (c.a.xlen + 1) * (c.a.ylen + 1)         \* full band = whole matrix
         /\ IF (c.a.xlen + 1) * (c.a.ylen + 1) > MAX_CELLS
            THEN Sentinel(r)
            ELSE r.score > MIN_SCORE /\ r.xlen = c.a.xlen /\ r.ylen = c.a.ylen
+
+\* largest entry of the substitution table (upper bound of any alignment score: every aligned pair
+\* contributes at most this much, gaps and clips contribute <= 0)
+MaxS(S) == LET RECURSIVE F(_, _)
+               F(i, j) == IF i > Len(S) THEN -1000000
+                          ELSE IF j > Len(S[i]) THEN F(i + 1, 1)
+                          ELSE Max2(S[i][j], F(i, j + 1))
+           IN F(1, 1)
+\* long inputs with a planted copy (big = 2): the band size (hook) decides between the sentinel and a
+\* real alignment; validity and rescoring are checked, optimality only against the trivial bound
+PlantedExplains(cfg, c, r) ==
+    LET md == ModeOf(c.op)
+        sc == Effective(Scheme(cfg), md)
+    IN  IF r.cells > MAX_CELLS THEN Sentinel(r)
+        ELSE /\ r.mode = ModeCode(md)
+             /\ ValidAlignment(r, c.a.x, c.a.y, sc, md \in {"custom", "global"})
+             /\ r.score <= Max2(0, MaxS(cfg.S)) * Min2(Len(c.a.x), Len(c.a.y))
 
 BandedExplains(cfg, c, r) ==
     /\ c.op \in {"custom", "custom_prehash", "custom_matches", "custom_expanded", "custom_path",
                  "global", "semiglobal", "semiglobal_prehash", "local"}
     /\ IsAlignment(r)
-    /\ IF c.a.big = 1 THEN BigExplains(cfg, c, r) ELSE
+    /\ "cells" \in DOMAIN r
+    /\ IF c.a.big = 2 THEN PlantedExplains(cfg, c, r) ELSE
+       IF c.a.big = 1 THEN BigExplains(cfg, c, r) ELSE
        LET md == ModeOf(c.op)
            sc == Effective(Scheme(cfg), md)
            x  == c.a.x   y == c.a.y
            full == \/ c.a.nomatches = 1                                   \* caller supplied an empty backbone
                    \/ (c.a.internal = 1 /\ ~HasKmerMatch(x, y, cfg.k))    \* internal k-mer search finds nothing
-       IN  IF full /\ (Len(x) + 1) * (Len(y) + 1) > MAX_CELLS
-           THEN Sentinel(r)                                               \* budget guard
+       IN  IF r.cells > MAX_CELLS
+           THEN Sentinel(r)                                               \* budget guard (band size from the hook)
            ELSE /\ r.mode = ModeCode(md)
                 /\ ValidAlignment(r, x, y, sc, md \in {"custom", "global"})
                 /\ LET opt == BestClip(x, y, sc) IN
